@@ -35,7 +35,7 @@ ASSUMPTIONS = [
     "only quads are compared, not which empty graphs the store remembers",
     "ADD/MOVE/COPY from a missing graph may act on an empty source or fail leaving the state before that operation",
 ]
-PROBES = ["overlapping-delete-insert-across-solutions", "template-unbound-var", "template-illegal-literal", "template-bnode-multi-solution", "with-clause", "using-clause", "graph-var-in-template", "move-src-eq-dst", "missing-source-graph", "request-multi-op", "where-2+solutions", "default-and-named-share-triple", "union-on", "union-off"]
+PROBES = ["overlapping-delete-insert-across-solutions", "template-unbound-var", "template-illegal-literal", "template-bnode-multi-solution", "with-clause", "using-clause", "graph-var-in-template", "move-src-eq-dst", "missing-source-graph", "request-multi-op", "where-2+solutions", "default-and-named-share-triple", "union-on", "union-off", "prefix-from-graph-bindings", "base-before-first-operation"]
 KNOWN_PREDICATES = {
     "C10-using-does-not-restrict-named-graphs": lambda f: f.get("equals_using_named_ignored") is True,
     "C10-delete-where-graph-var-noop": lambda f: f.get("equals_delete_where_graphvar_noop") is True,
@@ -215,6 +215,7 @@ def generate(seed, tier):
         if o[0] != "l":
             init.append([o, p, s, gi])
     requests = []
+    last_prefixed = None
     for i in range(g.randint(1, 5)):
         h = g.choice(handles)
         dataset = h not in ("graph", "view")
@@ -226,7 +227,23 @@ def generate(seed, tier):
                 o.pop("using_named", None)
                 if o.get("using") and _has_graph(o["where"]):
                     del o["using"]
-        requests.append({"uid": i + 1, "k": "request", "handle": h, "ops": ops})
+        req = {"uid": i + 1, "k": "request", "handle": h, "ops": ops}
+        r = g.random()
+        if r < 0.25:
+            # names written with the prefix ex:, which the text does not declare: the handle's namespace bindings supply it,
+            # and they differ from request to request
+            req["prefixed"] = g.choice(["http://ex.org/", "http://other.example/ns#", "http://ex.org/"])
+            if last_prefixed and g.chance(0.6):
+                # the very same request text as before, now under the other binding of ex:
+                req["ops"] = copy.deepcopy(last_prefixed[0])
+                req["handle"] = last_prefixed[2] if g.chance(0.5) else req["handle"]
+                req["prefixed"] = "http://other.example/ns#" if last_prefixed[1] == "http://ex.org/" else "http://ex.org/"
+                if req["handle"] in ("graph", "view"):
+                    req["ops"] = [o for o in req["ops"] if o["op"] in ("insert-data", "delete-data", "delete-where", "modify")]
+            last_prefixed = (req["ops"], req["prefixed"], req["handle"])
+        elif r < 0.35:
+            req["base"] = True  # BASE once, before the first operation; relative IRIs in every operation
+        requests.append(req)
     return {"property": ID, "config": {"union": union, "init": init}, "ops": requests}
 
 
@@ -333,7 +350,17 @@ def execute(trace, ctx):
             ops = [o for o in ops if o["op"] in ("insert-data", "delete-data", "delete-where", "modify") and not _uses_dataset(o)]
             if not ops:
                 continue
-        text = R.r_request(ops)
+        if req.get("prefixed"):
+            ns = req["prefixed"]
+            g.bind("ex", URIRef(ns), override=True, replace=True)
+            text = R.r_request(ops, prefixed=True)
+            ops = [R.subst_ns(o, ns) for o in ops]  # what the request means under that binding
+            ctx.probe("prefix-from-graph-bindings")
+        elif req.get("base"):
+            text = R.r_request(ops, base=True)
+            ctx.probe("base-before-first-operation")
+        else:
+            text = R.r_request(ops)
         ctx.op(h, "+".join(o["op"] for o in ops))
         if len(ops) > 1:
             ctx.probe("request-multi-op")
